@@ -82,6 +82,7 @@ structure St where
   refT : List Key := []     -- `isReferenced[c] == true`
   seen : List Key := []     -- keys entered into `isReferenced` with value false (they may turn true later)
   log  : List Key := []     -- ghost: non-simple objects of `b` handed to `mergeCmds` by `mergeRefs`, in order
+  writes : List (Key × List Cmd) := []   -- ghost: every `a.lookup[prefix][name] = …` of the merge, in order
   deriving Repr, Inhabited
 
 def St.isRefd (st : St) (k : Key) : Bool := st.refT.contains k
@@ -89,6 +90,9 @@ def St.isRefd (st : St) (k : Key) : Bool := st.refT.contains k
 def St.markRef (st : St) (k : Key) : St := { st with refT := k :: st.refT }
 /-- `isReferenced[c] = false` (done only while `!isReferenced[c]`). -/
 def St.markSeen (st : St) (k : Key) : St := { st with seen := st.seen ++ [k] }
+/-- `a.lookup[prefix][name] = l` (the only way the table changes). -/
+def St.store (st : St) (pfx name : String) (l : List Cmd) : St :=
+  { st with a := st.a.set pfx name l, writes := st.writes ++ [((pfx, name), l)] }
 
 def listSet {α : Type} (l : List α) (i : Nat) (v : α) : List α := l.set i v
 
@@ -189,7 +193,7 @@ def refStep (rec : Rec) (b : Tbl) (raw : Bool)
       | some al => .ok (simpleFinish st al aref bref i)
       | none =>
         if st.a.has pfx bName && raw then .error (.nameClash pfx bName)
-        else .ok (simpleFinish { st with a := st.a.set pfx bName bl } bl aref bref i)
+        else .ok (simpleFinish (st.store pfx bName bl) bl aref bref i)
     else
       match aref with
       | some ar =>
@@ -286,7 +290,7 @@ def genericStep (rec : Rec) (b : Tbl) (raw : Bool) (keys : List String)
 def mergeGeneric (rec : Rec) (b : Tbl) (raw : Bool) (st : St) (al bl : List Cmd) (name pfx : String) :
     Except Err St :=
   match foldE (genericStep rec b raw (al.map (·.parsed))) (st, al) bl with
-  | .ok (st', al') => .ok { st' with a := st'.a.set pfx name al' }
+  | .ok (st', al') => .ok (st'.store pfx name al')
   | .error e => .error e
 
 /-! ### ACLs -/
@@ -302,7 +306,7 @@ def mergeAsaAcl (rec : Rec) (b : Tbl) (raw : Bool) (st : St) (al bl : List Cmd) 
   match foldE (aclRefStep rec b raw) (st, []) bl with
   | .error e => .error e
   | .ok (st', bl') =>
-    .ok { st' with a := st'.a.set pfx name (mergeVia mergeASA (fun c => asaKind c.parsed) (·.app) al bl') }
+    .ok (st'.store pfx name (mergeVia mergeASA (fun c => asaKind c.parsed) (·.app) al bl'))
 
 /-- `mergeIOSACLs`: lines of all blocks of the raw ACL; the result is stored in the first raw block. -/
 def mergeIosAcl (st : St) (al bl : List Cmd) (name pfx : String) : Except Err St :=
@@ -312,7 +316,7 @@ def mergeIosAcl (st : St) (al bl : List Cmd) (name pfx : String) : Except Err St
     let acl := (al.head?.map (·.sub)).getD []
     let lines := bl.flatMap (·.sub)
     let merged : Cmd := { b0 with sub := mergeVia mergeIOS (fun (s : Sub) => iosKind s.parsed) (·.app) acl lines }
-    .ok { st with a := st.a.set pfx name [merged] }
+    .ok (st.store pfx name [merged])
 
 /-! ### Crypto maps -/
 
@@ -361,7 +365,7 @@ def cryptoCommon (rec : Rec) (b : Tbl) (raw : Bool) (st : St) (al bl : List Cmd)
 def mergeDynMap (rec : Rec) (b : Tbl) (raw : Bool) (st : St) (al bl : List Cmd) (name pfx : String) :
     Except Err St :=
   match cryptoCommon rec b raw st al bl with
-  | .ok (st', al', add) => .ok { st' with a := st'.a.set pfx name (al' ++ add) }
+  | .ok (st', al', add) => .ok (st'.store pfx name (al' ++ add))
   | .error e => .error e
 
 /-- `getPeer`. -/
@@ -441,7 +445,7 @@ def mergeCryptoMap (rec : Rec) (b : Tbl) (raw : Bool) (st : St) (al bl : List Cm
   | .error e => .error e
   | .ok calls =>
     match foldE (cryptoMapStep rec b raw) (st, al) calls with
-    | .ok (st', al') => .ok { st' with a := st'.a.set pfx name al' }
+    | .ok (st', al') => .ok (st'.store pfx name al')
     | .error e => .error e
 
 /-! ### `mergeCmds` and `MergeSpoc` -/
